@@ -37,13 +37,13 @@ LineLen(i) == 5 * GroupsOnLine(i) - 1
 CanonPP == << <<9, 0>>, <<6>> \o Sub(v, 0, 4 * G), <<6>>, <<11>> \o [i \in 1..G |-> 4],
               <<11>> \o [i \in 1..NLines |-> LineLen(i)], <<11>> \o [i \in 1..NLines |-> GroupsOnLine(i)],
               <<6>> \o Sub(v, 4 * G, n) >>
-PPHolds == PPOK(o, CanonPP, 4, width, TRUE, FALSE, TRUE)
+PPHolds == PPOK(o, CanonPP, 4, width, TRUE, FALSE, TRUE, FALSE)
 PPDiscriminates ==
   G > 0 =>
-    /\ ~PPOK(o, [CanonPP EXCEPT ![1] = <<9, 2>>], 4, width, TRUE, FALSE, TRUE)                       \* escapes under no_color
-    /\ ~PPOK(o, [CanonPP EXCEPT ![2] = FlipLast(CanonPP[2])], 4, width, TRUE, FALSE, TRUE)           \* a wrong digit
-    /\ ~PPOK(o, [CanonPP EXCEPT ![4] = <<11, 3, 1>> \o SubSeq(CanonPP[4], 3, Len(CanonPP[4]))], 4, width, TRUE, FALSE, TRUE)  \* a split group
+    /\ ~PPOK(o, [CanonPP EXCEPT ![1] = <<9, 2>>], 4, width, TRUE, FALSE, TRUE, FALSE)                       \* escapes under no_color
+    /\ ~PPOK(o, [CanonPP EXCEPT ![2] = FlipLast(CanonPP[2])], 4, width, TRUE, FALSE, TRUE, FALSE)           \* a wrong digit
+    /\ ~PPOK(o, [CanonPP EXCEPT ![4] = <<11, 3, 1>> \o SubSeq(CanonPP[4], 3, Len(CanonPP[4]))], 4, width, TRUE, FALSE, TRUE, FALSE)  \* a split group
     /\ (G >= 2 => ~PPOK(o, [CanonPP EXCEPT ![5] = <<11, width + 1>> \o SubSeq(CanonPP[5], 3, Len(CanonPP[5])),
-                                           ![6] = <<11, 2>> \o SubSeq(CanonPP[6], 3, Len(CanonPP[6]))], 4, width, TRUE, FALSE, TRUE))
-    /\ (n % 4 # 0 => ~PPOK(o, [CanonPP EXCEPT ![7] = <<6>>], 4, width, TRUE, FALSE, TRUE))          \* trailing bits not reported
+                                           ![6] = <<11, 2>> \o SubSeq(CanonPP[6], 3, Len(CanonPP[6]))], 4, width, TRUE, FALSE, TRUE, FALSE))
+    /\ (n % 4 # 0 => ~PPOK(o, [CanonPP EXCEPT ![7] = <<6>>], 4, width, TRUE, FALSE, TRUE, FALSE))          \* trailing bits not reported
 =============================================================================
